@@ -363,7 +363,7 @@ fn deflate_copy_case(t: &mut Tape, ctx: &Ctx, o: &mut Outcome) {
     });
 }
 
-fn deflate_reset_case(t: &mut Tape, ctx: &Ctx, o: &mut Outcome) {
+pub fn deflate_reset_case(t: &mut Tape, ctx: &Ctx, o: &mut Outcome) {
     let mut po = PlanOpts::standard();
     po.allow_dict = true;
     po.max_len = 100_000;
@@ -694,7 +694,7 @@ fn inflate_copy_case(t: &mut Tape, ctx: &Ctx, o: &mut Outcome) {
     });
 }
 
-fn inflate_reset_case(t: &mut Tape, ctx: &Ctx, o: &mut Outcome) {
+pub fn inflate_reset_case(t: &mut Tape, ctx: &Ctx, o: &mut Outcome) {
     let so = SubjectOpts::all();
     let s1 = gen_subject(t, &so);
     let s2 = gen_subject(t, &so);
